@@ -2,7 +2,7 @@
     of the library as a function from a list of byte strings to a result
     class and a list of byte strings (the projected observables).  The Go
     harness implements the same table on top of the real code. *)
-From DV Require Import Base.Bytes Label.Model V4.Model V4.Accessors V4.Builders V6.Model V6.Dump V6.Relay Raw.Model Client.Call Client.Routing Client.Macro Client.Lease Server.Model.
+From DV Require Import Base.Bytes Label.Model V4.Model V4.Accessors V4.Builders V6.Model V6.Dump V6.Relay Raw.Model Client.Call Client.Routing Client.Macro Client.Delivery Client.Lease Server.Model.
 
 
 (** entry 1: rfc1035label.FromBytes(b) -> Labels *)
@@ -275,6 +275,19 @@ Definition e_routing (args : list bytes) : res (list bytes) :=
   | _ => Err
   end.
 
+(** * a call whose matcher is held while datagrams for it pile up (entries 74 nclient4, 75 nclient6):
+      args = the payloads in arrival order, the position of the first acceptable one;
+      result = what the matcher sees, then the status (1 + payload: returned, 4: nothing acceptable) *)
+Definition e_held_matcher (args : list bytes) : res (list bytes) :=
+  match args with
+  | ps :: [af] :: _ =>
+    let seen := matcher_sees (map bnat ps) (bnat af) in
+    let last := List.last seen 0%nat in
+    Ok [map (fun p => n2b (N.of_nat p)) seen;
+        if (bnat af <? length seen)%nat then [x01; n2b (N.of_nat last)] else [n2b 4]]
+  | _ => Err
+  end.
+
 (** * servers (entries 80 server4, 81 server6): args = one per ReadFrom result *)
 Definition fixed_peer_v4 : bytes := [n2b 10; x01; x02; x03].
 Definition fixed_peer_v6 : bytes := [xfe; n2b 128] ++ zeros 13 ++ [x01].
@@ -359,6 +372,8 @@ Definition run (entry : N) (args : list bytes) : res (list bytes) :=
   | 70 => e_timed_call args
   | 71 => e_timed_call args
   | 72 => e_routing args
+  | 74 => e_held_matcher args
+  | 75 => e_held_matcher args
   | 80 => e_server4 args
   | 90 => e_lease4 args
   | 91 => e_lease6 args
